@@ -2,6 +2,8 @@
 //! traces and replayed through the Coq transition system by the oracle.
 //! case: `T <workers> <jobs> <style> <salt>`  (style: 0 no-op jobs, 1 yielding, 2 sleeping 0-200us, 3 mixed)
 //!       `P <workers>`                        (parallelism: jobs 0..k-2 each wait until job k-1 has started)
+//!       `W <workers> <jobs> <style> <salt>`  (paced submission: jobs take 0.2-2 ms; before job i is handed to execute() the submitter
+//!                                             waits 0-400 us, or until job i-1 has started - so submissions meet busy workers and a non-empty queue)
 //! impl: `<trace> counts=<ok|bad:j=c> [par=<ok|TIMEOUT>]` with trace tokens
 //!       S D J R L<w> U<w> X<w> B<j>.<w> E<j>
 use crate::util::*;
@@ -62,6 +64,26 @@ pub fn run(case: &str) -> String {
     let njobs: usize = f[2].parse().unwrap();
     let style: u64 = f[3].parse().unwrap();
     let mut rng = Rng::new(f[4].parse().unwrap(), "pooljobs");
+    if f[0] == "W" {
+        let counts: Arc<Vec<AtomicUsize>> = Arc::new((0..njobs).map(|_| AtomicUsize::new(0)).collect());
+        let started: Vec<Arc<AtomicBool>> = (0..njobs).map(|_| Arc::new(AtomicBool::new(false))).collect();
+        let plan: Vec<(u64, u64)> = (0..njobs).map(|_| (200 + rng.below(1800), match style { 0 => 0, 1 => rng.below(400), 2 => u64::MAX, _ => *rng.pick(&[0u64, 50, 300, u64::MAX]) })).collect();
+        let (counts2, started2, to2) = (counts.clone(), started.clone(), timed_out.clone());
+        let it = (0..njobs).map(move |i| {
+            // pacing happens here, on the submitting thread, between two execute() calls
+            match plan[i].1 {
+                0 => {}
+                u64::MAX => if i > 0 { let t0 = Instant::now(); while !started2[i - 1].load(Ordering::SeqCst) && t0.elapsed() < Duration::from_secs(2) { std::thread::yield_now(); } }
+                us => std::thread::sleep(Duration::from_micros(us)),
+            }
+            Job { id: i, counts: counts2.clone(), work: plan[i].0, wait_for: None, signal: Some(started2[i].clone()), timed_out: to2.clone() }
+        });
+        verif::verif_run_pool(workers, it);
+        // checked at once, with no grace period: shutdown must not return before every job has finished
+        let bad: Vec<String> = counts.iter().enumerate().filter(|(_, c)| c.load(Ordering::SeqCst) != 1).map(|(i, c)| format!("{}={}", i, c.load(Ordering::SeqCst))).collect();
+        let log = verif::take_log();
+        return format!("{} counts={}", show(&log), if bad.is_empty() { "ok".to_string() } else { format!("bad:{}", bad.join("/")) });
+    }
     let counts: Arc<Vec<AtomicUsize>> = Arc::new((0..njobs).map(|_| AtomicUsize::new(0)).collect());
     let jobs: Vec<Job> = (0..njobs).map(|i| Job { id: i, counts: counts.clone(),
         work: match style { 0 => 0, 1 => 1, 2 => 2 + rng.below(200), _ => *rng.pick(&[0u64, 0, 1, 1, 20, 150]) }, wait_for: None, signal: None, timed_out: timed_out.clone() }).collect();
@@ -74,7 +96,7 @@ pub fn run(case: &str) -> String {
 pub fn gen(ctx: &Ctx) {
     let mut rng = Rng::new(ctx.seed, "pool");
     let mut out = Out::new(&ctx.dir, "pool");
-    out.rule = "real executions of the pool (1..8 workers, 0..200 jobs; no-op / yielding / sleeping / mixed jobs) recorded as event traces; plus parallelism runs where k-1 jobs wait for the k-th \
+    out.rule = "real executions of the pool (1..8 workers, 0..200 jobs; no-op / yielding / sleeping / mixed jobs) recorded as event traces; plus paced submissions (1..4 workers, 2..12 jobs of 0.2-2 ms, each handed to execute() after a 0-400 us pause or once its predecessor has started, so that submissions meet busy workers); plus parallelism runs where k-1 jobs wait for the k-th \
                 to start on a k-worker pool (5 s timeout). Schedules are whatever the OS produces (sampled, not enumerated). non-trivial = at least 2 jobs and 2 workers".into();
     let n = if ctx.thorough { 5000 } else { 200 };
     for _ in 0..n {
@@ -83,6 +105,12 @@ pub fn gen(ctx: &Ctx) {
         let case = format!("T {} {} {} {}", w, j, rng.below(4), rng.below(1 << 30));
         let r = run(&case);
         out.emit(&case, &r, &format!("trace/w{}", if w == 1 { "1" } else if w <= 3 { "2-3" } else { "4-8" }), w >= 2 && j >= 2);
+    }
+    for _ in 0..(if ctx.thorough { 1500 } else { 60 }) {
+        let w = rng.range(1, 4);
+        let case = format!("W {} {} {} {}", w, rng.range(2, 12), rng.below(4), rng.below(1 << 30));
+        let r = run(&case);
+        out.emit(&case, &r, &format!("paced/w{w}"), true);
     }
     for k in 2..=8 {
         for rep in 0..(if ctx.thorough { 10 } else { 3 }) {
